@@ -204,27 +204,16 @@ def _install_spy():
     _SPY["installed"] = True
 
 
-def run_turn_full(cfg, rails_opt, user_text, bot_text, llm_text, no_options=False):
-    """Drive one `generate` call.  rails_opt: None (no `rails` option) or list of category names;
-    no_options: call `generate` without any options (then no log comes back)."""
-    app, llm, script = get_app(cfg)
-    _install_spy()
+def _one_call(app, llm, script, cfg, messages, options, llm_text, state=None, use_state=False):
+    """One `generate_async` call; returns (observation, GenerationResponse | message | None)."""
     script.cfg = cfg
     script.calls = []
     llm.responses = llm_script(cfg, llm_text)
     llm.i = 0
-    app.events_history_cache.clear()
     _SPY["plog"] = None
     _SPY["stats_llm"] = None
-    messages = [{"role": "user", "content": user_text}]
-    if bot_text is not None:
-        messages.append({"role": "assistant", "content": bot_text})
-    options = None
-    if not no_options:
-        options = {"log": {"activated_rails": True}}
-        if rails_opt is not None:
-            options["rails"] = list(rails_opt)
     obs = {}
+    res = None
     try:
         from nemoguardrails.context import explain_info_var
 
@@ -232,10 +221,13 @@ def run_turn_full(cfg, rails_opt, user_text, bot_text, llm_text, no_options=Fals
         loop = asyncio.new_event_loop()
         try:
             with contextlib.redirect_stdout(io.StringIO()), contextlib.redirect_stderr(io.StringIO()):
-                res = loop.run_until_complete(app.generate_async(messages=messages, options=options))
+                if use_state:
+                    res = loop.run_until_complete(app.generate_async(messages=messages, options=options, state=state))
+                else:
+                    res = loop.run_until_complete(app.generate_async(messages=messages, options=options))
         finally:
             loop.close()
-        if no_options:
+        if options is None and not use_state:
             msg = res
         else:
             msg = res.response[0] if isinstance(res.response, list) else {"role": "assistant", "content": res.response}
@@ -245,7 +237,7 @@ def run_turn_full(cfg, rails_opt, user_text, bot_text, llm_text, no_options=Fals
             obs["exception"] = msg["content"].get("type")
         else:
             obs["response"] = msg.get("content")
-        if not no_options:
+        if options is not None:
             obs["rails"] = [
                 {"type": r.type, "name": r.name, "stop": bool(r.stop), "finished": r.finished_at is not None, "decisions": list(r.decisions),
                  "actions": [{"name": a.action_name, "finished": a.finished_at is not None, "llm": [c.task for c in a.llm_calls]} for a in r.executed_actions]}
@@ -255,9 +247,61 @@ def run_turn_full(cfg, rails_opt, user_text, bot_text, llm_text, no_options=Fals
             obs["log_llm_calls"] = _SPY["stats_llm"]
     except Exception as e:  # noqa
         obs["exc"] = f"{type(e).__name__}: {e}"[:300]
+        res = None
     obs["calls"] = [list(c) for c in script.calls]
     obs["llm_calls"] = llm.i
+    return obs, res
+
+
+def _options(rails_opt):
+    options = {"log": {"activated_rails": True}}
+    if rails_opt is not None:
+        options["rails"] = list(rails_opt)
+    return options
+
+
+def run_turn_full(cfg, rails_opt, user_text, bot_text, llm_text, no_options=False):
+    """Drive one `generate` call on a fresh conversation.  rails_opt: None (no `rails` option) or list of category
+    names; no_options: call `generate` without any options (then no log comes back)."""
+    app, llm, script = get_app(cfg)
+    _install_spy()
+    app.events_history_cache.clear()
+    messages = [{"role": "user", "content": user_text}]
+    if bot_text is not None:
+        messages.append({"role": "assistant", "content": bot_text})
+    obs, _ = _one_call(app, llm, script, cfg, messages, None if no_options else _options(rails_opt), llm_text)
     return obs
+
+
+def run_session(cfg, calls, via):
+    """Several `generate` calls on ONE conversation.  calls: [{"opts", "user", "bot", "llm_text"}, …];
+    via = "state": the `state` returned by a call is passed to the next one (messages = the new ones only);
+    via = "history": the whole message history is passed again (the events come from `events_history_cache` when the
+    prefix hits, else they are rebuilt from the messages).  Returns one observation per call (the sequence stops after a
+    call that raised or answered with an exception message in the history mode)."""
+    app, llm, script = get_app(cfg)
+    _install_spy()
+    app.events_history_cache.clear()
+    out = []
+    state = {}
+    hist = []
+    for c in calls:
+        new = [{"role": "user", "content": c["user"]}]
+        if c.get("bot") is not None:
+            new.append({"role": "assistant", "content": c["bot"]})
+        if via == "state":
+            obs, res = _one_call(app, llm, script, cfg, new, _options(c["opts"]), c["llm_text"], state=state, use_state=True)
+            out.append(obs)
+            if res is None or getattr(res, "state", None) is None:
+                break
+            state = res.state
+        else:
+            obs, res = _one_call(app, llm, script, cfg, [dict(m) for m in hist] + new, _options(c["opts"]), c["llm_text"])
+            out.append(obs)
+            if res is None or obs.get("role") != "assistant":
+                break
+            hist = hist + [new[0], {"role": "assistant", "content": obs["response"]}]
+    return out
 
 
 def run_turn(cfg, rails_opt, user_text, bot_text, llm_text, want_plog=False):
